@@ -26,6 +26,10 @@ pub fn create_selector_with<T>(
 
     tracker.create_dependency_link(root, signal.id);
 
+    // The memo may have been disposed by its own initial run (e.g. by disposing its owner).
+    if !signal.is_alive() {
+        return *signal;
+    }
     let mut signal_mut = signal.get_mut();
     signal_mut.value = Some(Box::new(initial));
     signal_mut.callback = Some(Box::new(move |value| {
